@@ -70,8 +70,80 @@ func (m *serialMon) see(serial uint64, c *conc.Cfg, where string) {
 	m.byPtr[c] = serial
 }
 
+// c05ParkedCallback: a callback never returns, so after 64 announcements the callback queue overflows and further
+// announcements are dropped (documented). Installs must go on as before: every one gets the next serial, config and
+// serial stay paired, and the view equals the reference stack.
+func c05ParkedCallback(w *fw.Worker, i int, r *fw.Rand) {
+	o := conc.Opts{NSrc: 2}
+	desc := map[string]any{"mode": "callback-parked-queue-overflow"}
+	e, err := conc.Start(context.Background(), r.U64(), o, nil)
+	if err != nil {
+		w.Violation(i, "config-failed-on-valid-initial-stack", err.Error(), desc)
+		return
+	}
+	defer e.Stop()
+	e.CBGate = make(chan struct{})
+	defer close(e.CBGate)
+	ctx := e.S.Ctx
+	mon := newSerialMon()
+	mon.see(0, e.D.View(), "initial View")
+	e.ExtraHook = func(name string, _ context.Context, args []any) {
+		if name == "mon.stored" && len(args) >= 3 {
+			serial, _ := args[1].(uint64)
+			cfg, _ := args[2].(*conc.Cfg)
+			mon.see(serial, cfg, "mon.stored")
+		}
+	}
+	st := e.Model.Initial
+	n := r.Range(70, 110)
+	for k := 1; k <= n; k++ {
+		src := r.Intn(2)
+		l := e.RandLayer(r, 0, 0)
+		rd := make(chan int, 1)
+		go func() { res, _ := e.Report(ctx, 0, src, l, true); rd <- res }()
+		var res int
+		select {
+		case res = <-rd:
+		case <-time.After(10 * time.Second):
+			stuckVerdict(w, i, fmt.Sprintf("blocking report %d while a callback is parked", k), desc)
+			return
+		}
+		ns := e.Model.Step(st, conc.In{Kind: conc.OpReport, Src: src, Layer: l, Blocking: true}, conc.Out{Res: res})
+		if len(ns) == 0 {
+			w.Violation(i, "blocking-report-result-disagrees-with-model", fmt.Sprintf("report %d of %s returned res=%d while a callback is parked", k, l, res), desc)
+			return
+		}
+		st = ns[0].(conc.State)
+		cfg, tok := e.D.ViewVersion()
+		mon.see(conc.SerialOf(tok), cfg, "ViewVersion")
+		wantFP, _ := modelFP(e.Model, st.Cur)
+		if got := conc.FPOf(cfg); got != wantFP || conc.SerialOf(tok) != st.Serial {
+			w.Violation(i, "view-differs-from-reference-stack", fmt.Sprintf("install %d with a parked callback: view %+v serial %d; reference %+v serial %d", k, got, conc.SerialOf(tok), wantFP, st.Serial), desc)
+			return
+		}
+	}
+	if mon.bad != "" {
+		w.Violation(i, "serial-config-pairing-not-injective", mon.bad, desc)
+		return
+	}
+	ins := e.Installs()
+	for k, in := range ins {
+		if in.Serial != uint64(k+1) {
+			w.Violation(i, "install-serials-not-contiguous", fmt.Sprintf("install #%d has serial %d (callback parked, queue overflowing)", k+1, in.Serial), desc)
+			return
+		}
+	}
+	w.Count("installs_observed", int64(len(ins)))
+	w.Count("installs_with_callback_queue_overflowing", int64(len(ins)-65))
+	w.Distinct(fmt.Sprintf("parked|%d", n))
+}
+
 func runC05(w *fw.Worker) {
 	w.Cases(func(i int, r *fw.Rand) {
+		if i%30 == 11 {
+			c05ParkedCallback(w, i, r)
+			return
+		}
 		o := conc.Opts{NSrc: r.Range(2, 4), Skip: r.Chance(15), StaticFirst: r.Chance(15), SlowCB: r.Intn(2)}
 		e, err := conc.Start(context.Background(), r.U64(), o, func(e *conc.Env, k int) *conc.Layer {
 			if r.Chance(30) {
@@ -225,6 +297,30 @@ func runC05(w *fw.Worker) {
 					}
 					lastSetBySrc[s] = l.Set
 					srcsUsed[s] = true
+					if st.Verifying && e.Srcs[s] != nil && r.Chance(6) {
+						// the reporter gives up inside Verify; the monitor finishes that update, and the next blocking
+						// report of the same source must be answered for itself
+						al := e.RandLayer(r, 40, 0)
+						abandoned, ares := e.AbandonInVerify(0, s, al)
+						var ans []any
+						for _, guess := range []int{conc.ResNil, conc.ResRejected} {
+							if !abandoned {
+								guess = ares
+							}
+							if ans = e.Model.Step(st, conc.In{Kind: conc.OpReport, Src: s, Layer: al, Blocking: true}, conc.Out{Res: guess}); len(ans) > 0 {
+								break
+							}
+						}
+						if len(ans) == 0 {
+							w.Violation(i, "blocking-report-result-disagrees-with-model", fmt.Sprintf("report %s (abandoned in Verify: %v) res=%d", al, abandoned, ares), trace)
+							break phases
+						}
+						st = ans[0].(conc.State)
+						trace = append(trace, fmt.Sprintf("src=%d %s abandoned-in-verify=%v", s, al, abandoned))
+						if abandoned {
+							w.Count("reports_abandoned_inside_verify", 1)
+						}
+					}
 					var res int
 					var err error
 					if inPlace[s] && !l.IllTyped {
